@@ -193,7 +193,7 @@ var restoreCmd = &cobra.Command{
 			var targets []string
 			for _, arg := range args {
 				cleanedArg := filepath.Clean(arg)
-				cleanedArg = strings.ReplaceAll(cleanedArg, `\`, "/")
+				cleanedArg = filepath.ToSlash(cleanedArg)
 
 				paths := getStagedTargets(cleanedArg, client.Idx, tree)
 				if len(paths) == 0 {
@@ -215,7 +215,7 @@ var restoreCmd = &cobra.Command{
 			var targets []string
 			for _, arg := range args {
 				cleanedArg := filepath.Clean(arg)
-				cleanedArg = strings.ReplaceAll(cleanedArg, `\`, "/")
+				cleanedArg = filepath.ToSlash(cleanedArg)
 
 				var paths []string
 				if _, _, isRegistered := client.Idx.GetEntry([]byte(cleanedArg)); isRegistered {
